@@ -34,21 +34,21 @@ Proof. vm_compute. split; [left; reflexivity|reflexivity]. Qed.
 Lemma two_writers_fixed : count_kind KW (live (run true w2_sched (init 3 w2_progs))) <= 1.
 Proof. vm_compute. discriminate. Qed.
 
-(* ---------- sequential histories over several managers (current code) ---------- *)
+(* ---------- sequential histories over several managers (pinned tree, fx = false) ---------- *)
 (* a token outlives the manager that issued it: its release dereferences the dropped manager *)
 Definition dangling_hist : list sop := [SNew true 3; SAcq true KR 0; SDropMgr 0; SDrop 0].
-Lemma dangling_release : dangling (srun_ops dangling_hist sinit) = 1.
+Lemma dangling_release : dangling (srun_ops false dangling_hist sinit) = 1.
 Proof. vm_compute. reflexivity. Qed.
 (* ... also through the thread cache: manager 0 caches, is dropped, the cache is cleared *)
 Definition dangling_cache_hist : list sop := [SNew true 4; SAcq true KW 0; SRet 0; SDropMgr 0; SClear].
-Lemma dangling_release_cache : dangling (srun_ops dangling_cache_hist sinit) = 1.
+Lemma dangling_release_cache : dangling (srun_ops false dangling_cache_hist sinit) = 1.
 Proof. vm_compute. reflexivity. Qed.
 
 (* the thread cache is shared by all managers: manager 1 (OneWriteMultiRead) hands out the writer
    token cached by manager 0 and then a fresh one - two live writer tokens from one manager *)
 Definition cross_hist : list sop :=
   [SNew true 3; SNew true 3; SAcq true KW 0; SRet 0; SAcq true KW 1; SAcq true KW 1].
-Lemma cross_cache_two_writers : handed_writers (srun_ops cross_hist sinit) 1 = 2.
+Lemma cross_cache_two_writers : handed_writers (srun_ops false cross_hist sinit) 1 = 2.
 Proof. vm_compute. reflexivity. Qed.
 
 (* ---------- the statements of coq/C16/Properties.v ---------- *)
@@ -74,3 +74,10 @@ Proof.
   exists 4, rc_progs, rc_sched, 2, (Tok KR 2 1). cbv zeta. destruct reclaim_unsafe_old as [A B].
   split; [rewrite B; left; reflexivity|]. split; [exact A|]. split; [discriminate|]. cbn. lia.
 Qed.
+
+(* the same histories are harmless after the fixes *)
+Lemma dangling_fixed : dangling (sfinish true (srun_ops true dangling_hist sinit)) = 0
+                       /\ dangling (sfinish true (srun_ops true dangling_cache_hist sinit)) = 0.
+Proof. vm_compute. split; reflexivity. Qed.
+Lemma cross_cache_fixed : handed_writers (srun_ops true cross_hist sinit) 1 = 1.
+Proof. vm_compute. reflexivity. Qed.
